@@ -117,9 +117,12 @@ pub enum Api {
     WriteFmtBig,
     /// one `write!` whose first and last characters are `char` arguments (they reach the stream through `write_char`)
     WriteFmtChars,
+    /// the call shape changes from chunk to chunk (MIX)
+    Mixed,
 }
+pub const MIX: [Api; 6] = [Api::Write, Api::WriteFmt, Api::WriteAll, Api::Write, Api::WriteFmtChars, Api::WriteVectored];
 pub const APIS: [Api; 4] = [Api::Write, Api::WriteAll, Api::WriteFmt, Api::WriteVectored];
-pub const ALL_APIS: [Api; 7] = [Api::Write, Api::WriteAll, Api::WriteFmt, Api::WriteVectored, Api::WriteFmtLiteral, Api::WriteFmtBig, Api::WriteFmtChars];
+pub const ALL_APIS: [Api; 8] = [Api::Write, Api::WriteAll, Api::WriteFmt, Api::WriteVectored, Api::WriteFmtLiteral, Api::WriteFmtBig, Api::WriteFmtChars, Api::Mixed];
 
 pub const LITERALS: [&str; 5] = [
     "status: \x1b[32mall good\x1b[0m (42 items)\n",
@@ -207,7 +210,14 @@ pub fn run_history(run: &Run<'_>, mut st: Option<&mut Stats>) -> Result<(), (Str
     let mut seen_calls = 0usize;
     let mut history_retries = 0u32;
     let mut queue: std::collections::VecDeque<&[u8]> = chunks.into_iter().collect();
+    let mut chunk_no = 0usize;
     'chunks: while let Some(chunk) = queue.pop_front() {
+        // (a mixed history rotates the call shape from chunk to chunk)
+        let api = match run.api {
+            Api::Mixed => MIX[(chunk_no + run.input.len()) % MIX.len()],
+            a => a,
+        };
+        chunk_no += 1;
         let mut want = vec![];
         let mut trial = refs.clone();
         trial.feed(chunk, &mut want);
@@ -218,7 +228,7 @@ pub fn run_history(run: &Run<'_>, mut st: Option<&mut Stats>) -> Result<(), (Str
         let mut retries = history_retries;
         let mut attempts = 0u32;
         loop {
-        let r: Result<usize, io::Error> = match run.api {
+        let r: Result<usize, io::Error> = match api {
             Api::Write => stream.write(chunk),
             Api::WriteVectored => {
                 let (m1, m2) = (chunk.len() / 3, 2 * chunk.len() / 3);
@@ -243,6 +253,7 @@ pub fn run_history(run: &Run<'_>, mut st: Option<&mut Stats>) -> Result<(), (Str
                 let mid = &s[first.len_utf8()..s.len() - last.len_utf8()];
                 write!(stream, "{first}{mid}{last}").map(|_| chunk.len())
             }
+            Api::Mixed => unreachable!("resolved per chunk"),
             Api::WriteFmt | Api::WriteFmtLiteral | Api::WriteFmtBig | Api::WriteFmtChars => match std::str::from_utf8(chunk) {
                 Ok(s) => {
                     let mut mid = s.len() / 2;
@@ -266,8 +277,8 @@ pub fn run_history(run: &Run<'_>, mut st: Option<&mut Stats>) -> Result<(), (Str
         let fatal: Option<ErrorKind> = calls.iter().find_map(|c| match c.step {
             Step::WouldBlock => Some(ErrorKind::WouldBlock),
             Step::Other => Some(ErrorKind::Other),
-            Step::Interrupted if matches!(run.api, Api::Write | Api::WriteVectored) => Some(ErrorKind::Interrupted),
-            Step::Accept(0) if !c.data.is_empty() && matches!(run.api, Api::WriteAll | Api::WriteFmt | Api::WriteFmtLiteral | Api::WriteFmtBig | Api::WriteFmtChars) => Some(ErrorKind::WriteZero),
+            Step::Interrupted if matches!(api, Api::Write | Api::WriteVectored) => Some(ErrorKind::Interrupted),
+            Step::Accept(0) if !c.data.is_empty() && matches!(api, Api::WriteAll | Api::WriteFmt | Api::WriteFmtLiteral | Api::WriteFmtBig | Api::WriteFmtChars) => Some(ErrorKind::WriteZero),
             _ => None,
         });
         match r {
@@ -294,7 +305,9 @@ pub fn run_history(run: &Run<'_>, mut st: Option<&mut Stats>) -> Result<(), (Str
                         ));
                     }
                 } else if !cells_eq(&got, &want_n, run.styles) {
-                    if matches!(run.api, Api::Write | Api::WriteVectored) && short && want_n.len() > got.len() && cells_eq(&got, &want_n[..got.len()], run.styles) {
+                    if matches!(api, Api::Write | Api::WriteVectored) && short && want_n.len() > got.len() && cells_eq(&got, &want_n[..got.len()], run.styles) {
+                        // the listed finding F14.  The history stops here: after this call the stream has dropped the rest of
+                        // the buffer without parsing it, so nothing that follows can be predicted without mirroring the defect.
                         return Err((
                             SIG_F14.into(),
                             format!("write returned Ok({n}) = everything it processed, but a console call accepted a short count and only {} of {} text bytes were handed over", got.len(), want_n.len()),
@@ -338,7 +351,7 @@ pub fn run_history(run: &Run<'_>, mut st: Option<&mut Stats>) -> Result<(), (Str
                 } else if got.len() > want.len() || !cells_eq(&got, &want[..got.len()], run.styles) {
                     return Err((format!("c18:{tag}:delivery-not-prefix"), format!("failed call handed over {}, not a prefix of {}", show_cells(&got), show_cells(&want))));
                 }
-                if e.kind() == ErrorKind::Interrupted && matches!(run.api, Api::Write | Api::WriteVectored) && attempts < 3 {
+                if e.kind() == ErrorKind::Interrupted && matches!(api, Api::Write | Api::WriteVectored) && attempts < 3 {
                     carried.extend_from_slice(&got);
                     attempts += 1;
                     retries += 1;
@@ -357,7 +370,7 @@ pub fn run_history(run: &Run<'_>, mut st: Option<&mut Stats>) -> Result<(), (Str
                 // character, which is outside the domain of valid UTF-8 texts)
                 let end = chunk.as_ptr() as usize + chunk.len() - run.input.as_ptr() as usize;
                 let clean = end <= run.input.len() && std::str::from_utf8(&run.input[..end]).is_ok();
-                if clean && matches!(run.api, Api::WriteAll | Api::WriteFmt | Api::WriteFmtBig | Api::WriteFmtChars | Api::WriteFmtLiteral) && retries == 0 {
+                if clean && matches!(api, Api::WriteAll | Api::WriteFmt | Api::WriteFmtBig | Api::WriteFmtChars | Api::WriteFmtLiteral) && retries == 0 {
                     console.0.borrow_mut().script.clear();
                     let follow = 2 + (chunk.len() % 7);
                     let r2 = write!(stream, "{}next:{}", "\x1b[0m", follow);
@@ -547,7 +560,7 @@ pub fn run(cfg: &Cfg) -> Stats {
             let input = SHORT_INPUTS[(idx % SHORT_INPUTS.len() as u64) as usize].as_bytes();
             gen::enum_decode(idx / SHORT_INPUTS.len() as u64, STEPS.len() as u64, &mut digits);
             let script: Vec<Step> = digits.iter().map(|d| STEPS[*d]).collect();
-            for api in [Api::Write, Api::WriteAll, Api::WriteFmt, Api::WriteVectored, Api::WriteFmtChars] {
+            for api in [Api::Write, Api::WriteAll, Api::WriteFmt, Api::WriteVectored, Api::WriteFmtChars, Api::Mixed] {
                 let run = Run { input, cuts: &[], script: &script, api, styles: true };
                 eval(&run, &mut st, true);
                 if input.len() > 2 {
@@ -633,13 +646,14 @@ pub fn run(cfg: &Cfg) -> Stats {
             let data = gen::gen_sgr_text(&mut rng, SgrOpts::default(), items, &[]);
             let chunker = *rng.pick(&[Chunker::Whole, Chunker::Single, Chunker::Random(7), Chunker::Random(50), Chunker::Fixed(4)]);
             let cuts = gen::chunk_cuts(&mut rng, data.len(), chunker);
-            let api = match rng.below(8) {
+            let api = match rng.below(9) {
                 0 => Api::WriteFmtBig,
                 1 => Api::WriteFmtChars,
+                2 | 3 => Api::Mixed,
                 _ => APIS[rng.below(4) as usize],
             };
             let cuts = match (api, std::str::from_utf8(&data)) {
-                (Api::WriteFmt | Api::WriteFmtBig | Api::WriteFmtChars, Ok(s)) => gen::cuts_to_char_boundaries(s, &cuts),
+                (Api::WriteFmt | Api::WriteFmtBig | Api::WriteFmtChars | Api::Mixed, Ok(s)) => gen::cuts_to_char_boundaries(s, &cuts),
                 _ => cuts,
             };
             let script: Vec<Step> = if rng.chance(1, 2) {
@@ -712,7 +726,7 @@ pub fn replay(case: &Case) -> Result<String, Viol> {
     }
     let input = case.bytes.first().cloned().unwrap_or_default();
     let nums = &case.nums;
-    let api = ALL_APIS[nums.first().copied().unwrap_or(1) as usize % 7];
+    let api = ALL_APIS[nums.first().copied().unwrap_or(1) as usize % 8];
     let styles = nums.get(1).copied().unwrap_or(1) != 0;
     let sl = nums.get(2).copied().unwrap_or(0) as usize;
     let script: Vec<Step> = nums.iter().skip(3).take(sl).map(|c| STEPS[*c as usize % 8]).collect();
